@@ -74,6 +74,8 @@ class B:
         k = lambda: self.stmts(rest, ind)          # noqa: E731
         if isinstance(s, ast.Pass) or t in ("order.is_canceled = True", "cancel.placed_at = self.time"):
             return k()
+        if isinstance(s, ast.If) and _o(ast.unparse(s.test)) == "order.ttl is None":
+            s = ast.If(test=ast.parse("order.ttl is not None", mode="eval").body, body=s.orelse or [ast.Pass()], orelse=s.body)
         if isinstance(s, ast.If) and _o(ast.unparse(s.test)) == "order.ttl is not None":
             if self.ttl:
                 raise Unsupported("nested test of the time to live")
@@ -161,6 +163,8 @@ def putback(repo):
         if m:
             lines.append(f"  let q{m.group(1)} := hheapify q{m.group(1)} in")
             continue
+        if "priority_queue" not in t and "heapq" not in t and "order_book" not in t:
+            continue                                     # not about the queues
         raise Unsupported("statement " + t[:100])
     if seen != {"buy", "sell"}:
         raise Unsupported("the popped orders of a side are not put back")
